@@ -7,7 +7,7 @@ import os
 import sys
 
 from .. import symx, model, scriptmodel, satmodel
-from ..interp import Term
+from ..interp import Term, Adt
 from ..report import Unsupported
 from . import assembly
 
@@ -382,8 +382,9 @@ def check_descriptor_split(chk, F):
                   "of 2 or 3 alternatives, with / without (hardened) wildcards): into_single_descriptors returns, in order, "
                   "exactly the descriptors whose text has every <a;b;..> step replaced by its j-th alternative (the "
                   "descriptor itself when no key is multipath); at_derivation_index(i) is the text with every /* replaced "
-                  "by /i, and is refused for multipath keys, hardened wildcards / steps and i >= 2^31; keys with different "
-                  "numbers of alternatives are refused by the parser")
+                  "by /i, and is refused for multipath keys, hardened wildcards / steps and i >= 2^31; has_wildcard / is_multipath / "
+                  "into_definite / derive_at_index answer accordingly and derived_descriptor's keys are the keys derived along "
+                  "exactly those paths; keys with different numbers of alternatives are refused")
     DPK = c10.DPK
     fs = [it["path"] for i in F.impls if i["trait"] == "std::str::FromStr" and i["self_adt"] == c10.DESC
           for it in i["items"] if it["name"] == "from_str"]
@@ -393,6 +394,22 @@ def check_descriptor_split(chk, F):
         chk.fail(rid, "anchor", "Descriptor::from_str / into_single_descriptors / at_derivation_index not found", kind="unanalysable")
         return
     chk.saw(fs[0], isd[0], adi[0])
+    more = {}
+    for nm in ("has_wildcard", "is_multipath", "into_definite", "derive_at_index"):
+        qs = [q for q in F.fns if q.endswith("Descriptor::<descriptor::key::DescriptorPublicKey>::" + nm)]
+        if len(qs) != 1:
+            chk.fail(rid, "anchor|" + nm, "Descriptor::%s not found" % nm, kind="unanalysable")
+            return
+        more[nm] = qs[0]
+    qs = [q for q in F.fns if q.endswith("Descriptor::<descriptor::key::DefiniteDescriptorKey>::derived_descriptor")]
+    fek_l = [it["path"] for i in F.impls if i["self_adt"] == c10.DESC and (i["trait"] or "").endswith("ForEachKey")
+             for it in i["items"] if it["name"] == "for_each_key"]
+    if len(qs) != 1 or len(fek_l) != 1:
+        chk.fail(rid, "anchor|derived_descriptor", "Descriptor::derived_descriptor / for_each_key not found", kind="unanalysable")
+        return
+    more["derived_descriptor"] = qs[0]
+    fek_ = fek_l[0]
+    chk.saw(*more.values())
     m, _params = c10.desc_machine(F)
     km = c10.key_machine(F)
     for k, v in km.hooks.items():
@@ -463,6 +480,48 @@ def check_descriptor_split(chk, F):
                         got3 = text_of(r3.fields["0"]) if r3.variant == "Ok" else "Err:" + getattr(B.deref(r3.fields["0"]), "variant", "?")
                         if got3 not in want3:
                             bad.append("at_derivation_index(%d) gives %s, expected %s" % (i, show(got3), " or ".join(sorted(map(show, want3)))))
+                    # the predicates and the other derivation entry points
+                    hw = m.call_path(more["has_wildcard"], [d])
+                    if hw != (wc != ""):
+                        bad.append("has_wildcard = %r" % (hw,))
+                    im = m.call_path(more["is_multipath"], [d])
+                    if im != bool(multi_slots):
+                        bad.append("is_multipath = %r" % (im,))
+                    rdef = m.call_path(more["into_definite"], [d])
+                    if wc != "":
+                        wdef = "Err:Wildcard"
+                    elif multi_slots:
+                        wdef = "Err:Multipath"
+                    else:
+                        wdef = s_
+                    gdef = text_of(rdef.fields["0"]) if rdef.variant == "Ok" else "Err:" + getattr(B.deref(rdef.fields["0"]), "variant", "?")
+                    if gdef != wdef:
+                        bad.append("into_definite gives %s, expected %s" % (show(gdef), show(wdef)))
+                    rd = m.call_path(more["derive_at_index"], [d, 9])
+                    if wc == "":
+                        good_ = rd.variant == "WithoutWildcard" and text_of(rd.fields["0"]) == s_
+                    elif multi_slots or wc == "/*h":
+                        good_ = rd.variant == "Error"
+                    else:
+                        good_ = rd.variant == "Ok" and text_of(rd.fields["0"]) == s_.replace("/*", "/9")
+                    if not good_:
+                        bad.append("derive_at_index(9) gives %s" % repr(rd)[:120])
+                    if not multi_slots and wc in ("", "/*"):
+                        # derived_descriptor: every key becomes the key derived along exactly its path
+                        dd = m.call_path(adi[0], [d, 9])
+                        if dd.variant == "Ok":
+                            pkd = m.call_callee({"def": more["derived_descriptor"], "resolved": more["derived_descriptor"],
+                                                 "name": "derived_descriptor", "targs": ["C"]}, [dd.fields["0"], Term("secp")])
+                            seenk = []
+                            m.call_callee({"def": fek_, "resolved": fek_, "name": "for_each_key", "targs": ["bitcoin::PublicKey", "F"]},
+                                          [pkd, lambda k: seenk.append(B.deref(k)) or True])
+                            wantk = []
+                            for i in range(slots):
+                                sp_ = spec_key(key_text(i, n_alt, False, wc).replace("/*", "/9"))
+                                wantk.append(repr(("derived", ("xkey", sp_["base"]), tuple(sp_["paths"][0]))))
+                            gotk = sorted(repr(k.fields["inner"]) if isinstance(k, Adt) else repr(k) for k in seenk)
+                            if sorted(set(gotk)) != sorted(set(wantk)):
+                                bad.append("derived_descriptor has the keys %s, expected %s" % ([show(x) for x in gotk][:3], [show(x) for x in wantk][:3]))
                     chk.obligation(rid, not bad, key, "; ".join(bad[:2])[:900], where="src/descriptor/mod.rs")
                 except Unsupported as e:
                     chk.fail(rid, "unanalysable:" + key, "unanalysable: %s" % e, where=e.where, kind="unanalysable")
